@@ -286,18 +286,23 @@ class LabReplay:
             self.step(st, pre_key, pre_j, ev, post_j, post_key, idx)
         self.final_recheck()
 
-    def eps_of(self, ev):
+    def eps_of(self, ev, spec_pre=None):
         """relative uncertainty an operation driven by a stated concentration introduces: the library rounds the parsed
-        concentration to its quantum in base units (quantum / concentration), capped at 1e-3"""
-        cs = []
+        concentration to its quantum in base units (quantum / concentration); what a dilution ADDS is the difference
+        num / c - den, so its relative uncertainty is that times (den + added) / added; capped at 1e-3"""
+        cs, amp = [], 4.0
         try:
             if ev["op"] in ("dilute", "create_solution_from") and "t" in ev:
                 cs.append(self.inst.conc_base(rat(ev["t"]), ev["nu"], ev["du"]))
+                if ev["op"] == "dilute" and spec_pre is not None and rat(ev.get("y", [0, 1])) > 0:
+                    den = measure(spec_pre[ev["n"]]["w"][0]["c"], ev["du"])
+                    add = rat(ev["y"]) * per_unit(ev["solvent"], ev["du"])
+                    amp = max(amp, float((den + add) / add)) if add > 0 else amp
             elif ev["op"] == "create_solution" and "c" in ev.get("given", ""):
                 cs += [self.inst.conc_base(rat(t), nu, du) for t, nu, du in zip(ev["conc"], ev["nu"], ev["du"])]
         except Exception:
             return 0.0
-        return min(1e-3, max([self.P.quantum / abs(float(c)) for c in cs if c != 0] or [0.0]))
+        return min(1e-3, amp * max([self.P.quantum / abs(float(c)) for c in cs if c != 0] or [0.0]))
 
     def step(self, st, pre_key, pre_j, ev, post_j, post_key, idx):
         objs = st["objs"]
@@ -311,8 +316,9 @@ class LabReplay:
         ck = (ev["op"], ev.get("cls"), ev["res"])
         self.by_class[ck] = self.by_class.get(ck, 0) + 1
         ctx = dict(objs=objs, ev=ev, out=out, spec_pre=spec_pre, spec_post=spec_post, k=k, pre_key=pre_key, st=st)
-        eps = max(st.get("eps", 0.0), self.eps_of(ev))
+        eps = max(st.get("eps", 0.0), self.eps_of(ev, spec_pre))
         self.P.extra_rel = 2 * eps
+        self.pre_eps = st.get("eps", 0.0)
         for mon in (self.mon_c04, self.mon_c03, self.mon_c01, self.mon_c02, self.mon_c07, self.mon_c10,
                     self.mon_c11, self.mon_c17, self.mon_c19, self.mon_c05, self.mon_c12):
             try:
@@ -943,7 +949,8 @@ class LabReplay:
     def near_not_asserted(self, ev):
         """targets 5 ppm from the current concentration are judged only where the library's rounding of a stated
         concentration (1e-10 in base units) is far below that distance"""
-        return ev["op"] == "dilute" and ev.get("near") and abs(float(self.inst.conc_base(rat(ev["t"]), ev["nu"], ev["du"]))) < 1e-2
+        return ev["op"] == "dilute" and ev.get("near") and (abs(float(self.inst.conc_base(rat(ev["t"]), ev["nu"], ev["du"]))) < 1e-2
+                                                            or getattr(self, "pre_eps", 0.0) > 2.5e-7)   # (the state itself is uncertain by a tenth of the distance)
 
     def mon_c11(self, ctx):
         """fill_to / dilute reach their target by adding only solvent; the two refusal classes of C11."""
